@@ -840,7 +840,8 @@ def lockorder_family(ctx):
     # association lock vs. stream lock vs. write lock (StreamLock.tla, two negative controls); bound by lockapi-rt: the read
     # loop parked in an inbound handler while every public call on that stream is started
     ctx.tlc_design("StreamLock", "StreamLock_ok.cfg", workers=2, timeout=300)
-    for c, why in (("neg_close", "Close keeping the stream lock across the reset request"), ("neg_cb", "the released-bytes callback running under the association lock")):
+    for c, why in (("neg_close", "Close keeping the stream lock across the reset request"), ("neg_cb", "the released-bytes callback running under the association lock"),
+                   ("neg_rlock", "the write loop taking the stream's read lock twice")):
         neg = L.run_tlc(ctx.scr, "StreamLock", "StreamLock_%s.cfg" % c, workers=1, timeout=300)
         if "NoDeadlock" not in neg["invariant_violated"]:
             raise L.MachineryError("negative control failed: StreamLock with %s must deadlock\n" % why + neg["out"][-1500:])
@@ -852,7 +853,12 @@ def lockorder_family(ctx):
         if p.returncode != 0:
             raise L.MachineryError("lockapi-rt failed: " + (p.stdout + p.stderr)[-2000:])
     ctx.distinct.add(("lock-api-episodes",))
-    return sorted(glob.glob(os.path.join(out, "lockorder-rt-*.ndjson")) + glob.glob(os.path.join(out, "lockapi-rt-*.ndjson")))
+    ps = L.run_shards(binp, "setters-rt", out, 4 if ctx.quick else 8, {})
+    for p in ps:
+        if p.returncode != 0:
+            raise L.MachineryError("setters-rt failed: " + (p.stdout + p.stderr)[-2000:])
+    ctx.distinct.add(("setter-stress-episodes",))
+    return sorted(glob.glob(os.path.join(out, "lockorder-rt-*.ndjson")) + glob.glob(os.path.join(out, "lockapi-rt-*.ndjson")) + glob.glob(os.path.join(out, "setters-rt-*.ndjson")))
 
 
 def lifecycle_design(ctx):
